@@ -311,6 +311,12 @@ func TestVerifC04ClientFastOpen(t *testing.T) {
 				}
 				pt := vfNewPipeTarget()
 				go func() {
+					if c.Drain != "read" && c.WriteFirst {
+						// a target that goes away while the client's bytes are still on their way makes the server
+						// end the relay at once (its write fails), possibly before the greeting was relayed: that
+						// is the relay's teardown rule, not framing. Take the client's bytes first.
+						_, _ = io.ReadFull(pt.Harness, make([]byte, len("client-speaks-first")))
+					}
 					_, _ = pt.Harness.Write(greeting)
 					if c.Drain != "read" {
 						_ = pt.Harness.Close()
